@@ -159,6 +159,8 @@ def check(ctx):
     _r8_array_stores(ctx)
     _r8_xdr(ctx)
     _r8_dcd(ctx)
+    _r8_pdb_block(ctx)
+    _r8_ensure_type(ctx)
     ctx.rule("C19-R6", "HDF5.write passes flush() on every normal exit; flush() reaches the backend sync; the reporter flushes after write")
 
     for key in WRITERS:
@@ -916,6 +918,57 @@ def _r8_xdr(ctx):
                 ctx.decide(why is None, "C19-R8", fn, rel, q, desc, (e1 or "")[:40], "%s: the file becomes ragged" % why)
             except PUnsupported as e:
                 ctx.undecided("C19-R8", fn, rel, q, desc, "not evaluable: %s" % e)
+
+
+def _r8_ensure_type(ctx):
+    """Every streaming writer checks "one entry per frame" through ensure_type(..., shape=(n_frames, ...)).  The helper itself, evaluated from its
+    source (the writers' harnesses summarise it as the identity): an array whose shape differs from the shape asked for is refused - also when the
+    length asked for is 0 (an empty coordinate block with non-empty times would otherwise grow one array of the file and not the others); None in the
+    shape matches anything; equal shapes pass."""
+    import itertools
+    from ..tensym import TenSym, Ten, Raised, Obj
+    from ..pysym import Unsupported as PUnsupported
+    rel = "mdtraj/utils/validation.py"
+    fn = ctx.py.func(rel, "ensure_type")
+
+    def zl(ev, c):
+        a = [list(ev.iterate(ev.ex(x))) for x in c.args]
+        fv = next((ev.ex(k.value) for k in c.keywords if k.arg == "fillvalue"), None)
+        return [tuple(t) for t in itertools.zip_longest(*a, fillvalue=fv)]
+    models = {"object": lambda ev, c: Obj(tag="sentinel"), "zip_longest": zl, "itertools.zip_longest": zl, "ValueError": lambda ev, c: Obj(tag="ValueError", _isa=("ValueError", "Exception")),
+              "warnings.warn": lambda ev, c: None, "np.ascontiguousarray": lambda ev, c: ev.ex(c.args[0])}
+    for shp, have, accept in (((0,), (2,), False), ((3,), (2,), False), ((2,), (2,), True), ((None,), (2,), True), ((0, 3), (2, 3), False), ((None, 3), (2, 3), True), ((2, None), (2, 4), True), ((2, 3), (2, 4), False)):
+        desc = "ensure_type(array of shape %s, shape=%s) is %s" % (have, shp, "accepted" if accept else "refused")
+        try:
+            ts = TenSym({}, models=models)
+            r = ts.run_fn(fn, val=Ten.sym("t", have), dtype="float32", ndim=len(have), name="time", shape=shp, can_be_none=True, warn_on_cast=False, add_newaxis_on_deficient_ndim=True, length=None)
+            ctx.decide(accept and isinstance(r, Ten) and r.shape == have, "C19-R8", fn, rel, "ensure_type", desc, "", "an array of shape %s passes the check against %s: a write whose arrays have different numbers of frames is not refused" % (have, shp))
+        except Raised as e:
+            ctx.decide(not accept, "C19-R8", fn, rel, "ensure_type", desc, "", "a matching array is refused: %s" % (e.exc or e))
+        except PUnsupported as e:
+            ctx.undecided("C19-R8", fn, rel, "ensure_type", desc, "not evaluable: %s" % e)
+
+
+def _r8_pdb_block(ctx):
+    """PDBTrajectoryFile.write stores one model per call.  Evaluated (sa/writers.py) with a block of two frames: the call is refused (or two models are
+    written) - it never stores fewer frames than it accepted."""
+    from .. import writers as W
+    from ..tensym import Raised, Ten
+    from ..pysym import Unsupported as PUnsupported
+    fn = ctx.py.func(W.PDB, "PDBTrajectoryFile.write")
+    q = "PDBTrajectoryFile.write"
+    desc = "a block of two frames handed to one write() is refused or written whole"
+    spec = [("A", [("ALA", 5, [("N", "N"), ("CA", "C"), ("C", "C")])]), ("B", [("HOH", 1, [("O", "O")])])]
+    try:
+        top = W.pdb_topology(spec)
+        lines, me = W.pdb_written(ctx, top, [Ten.sym("x", (2, len(top.atoms), 3))], W.new_root())
+        n_atom_lines = sum(1 for l_ in lines if (l_.startswith("ATOM") or l_.startswith("HETATM")))
+        ctx.decide(n_atom_lines == 2 * len(top.atoms), "C19-R8", fn, W.PDB, q, desc, "",
+                   "positions of shape (2, %d, 3) are accepted and %d ATOM records are written: the file holds fewer frames than the calls it accepted" % (len(top.atoms), n_atom_lines))
+    except Raised as e:
+        ctx.holds("C19-R8", fn, W.PDB, q, desc, "refused: %s" % (e.exc or "")[:60])
+    except PUnsupported as e:
+        ctx.undecided("C19-R8", fn, W.PDB, q, desc, "not evaluable: %s" % e)
 
 
 def _r8_dcd(ctx):
